@@ -53,4 +53,9 @@ pub struct TableDump {
     pub ambiguous_answers: usize,
     pub answers_with_delayed_subgoals: usize,
     pub strands: usize,
+    /// `Debug` rendering of the table goal without its canonical binders.
+    pub goal_body: String,
+    /// `Debug` renderings of the goals of all delayed subgoals of the
+    /// table's answers.
+    pub delayed_goals: Vec<String>,
 }
